@@ -101,6 +101,7 @@ func (r *Run) Report() int {
 	var violations []string
 	var knownSeen []string
 	engineErr := false
+	crossVerdicts := map[string]int{}
 	for _, m := range r.eng.MissingFunctions(prop) {
 		// a contract that no longer resolves against the code
 		name := "unresolved-function/" + strings.ReplaceAll(m, " ", ":")
@@ -152,12 +153,20 @@ func (r *Run) Report() int {
 			}
 			total++
 			solverTime += o.TimeS
+			for _, c := range o.Cross {
+				crossVerdicts[c[strings.LastIndex(c, ":")+1:]]++
+			}
 			if o.Status == "discharged" {
 				discharged++
 				bySolver[o.Solver]++
 				if len(samples) < 12 {
 					samples = append(samples, map[string]interface{}{"obligation": o.Name, "kind": o.Kind, "clause": trunc(o.Src, 200), "status": o.Status, "solver": o.Solver, "time_s": round3(o.TimeS), "goal_bytes": len(o.Goal)})
 				}
+				continue
+			}
+			if o.Status == "solver-disagreement" {
+				fmt.Printf("ENGINE-ERROR: solver disagreement on %s: %s\n", o.Name, trunc(o.Model, 200))
+				engineErr = true
 				continue
 			}
 			if o.Status == "engine-error" {
@@ -180,6 +189,38 @@ func (r *Run) Report() int {
 			violations = append(violations, r.violation(o.Name, o))
 		}
 	}
+	// contracts relied on at call sites but not verified in this run, and entry preconditions
+	verified := map[string]bool{}
+	for _, vc := range r.vcs {
+		if vc.lemma == nil {
+			if p := pkgOf(vc.fn); p != nil {
+				verified[p.Pkg.Path()+" "+relFuncName(vc.fn)] = true
+			}
+		}
+	}
+	for _, vc := range r.vcs {
+		for k, fc := range vc.usedContracts {
+			if verified[k] || fc.Trusted {
+				continue
+			}
+			switch {
+			case fc.IsIface:
+				axioms["interface contract assumed for every implementation: "+fc.Key] = true
+			case len(fc.Props) > 0:
+				axioms["contract of "+fc.Key+" used at call sites; its body is verified by the check(s) "+strings.Join(fc.Props, ",")+", not in this run"] = true
+			default:
+				axioms["contract of "+fc.Key+" ASSUMED at call sites (no check verifies its body)"] = true
+			}
+		}
+		if vc.lemma != nil {
+			continue
+		}
+		if fc := r.eng.contractOf(vc.fn); fc != nil {
+			for _, c := range fc.Requires {
+				axioms["precondition assumed at entry of "+relFuncName(vc.fn)+" (owed by its callers; checked only at call sites inside functions under contract): "+c.Text] = true
+			}
+		}
+	}
 	sort.Strings(funcs)
 	for _, v := range violations {
 		fmt.Println(v)
@@ -189,7 +230,7 @@ func (r *Run) Report() int {
 	ev.Assumptions = append([]string{}, standingAssumptions...)
 	ev.Assumptions = append(ev.Assumptions, sortedKeys(axioms)...)
 	for _, k := range sortedKeys(externals) {
-		ev.Assumptions = append(ev.Assumptions, "assumed contract / pure frame for: "+k)
+		ev.Assumptions = append(ev.Assumptions, "unverified callee (assumed contract / mod-set havoc): "+k)
 	}
 	ev.Coverage = map[string]interface{}{
 		"obligations":              total,
@@ -200,6 +241,7 @@ func (r *Run) Report() int {
 		"by_solver":                bySolver,
 		"solver_time_s":            round3(solverTime),
 		"bounded":                  bounded,
+		"cross_solver_verdicts":    crossVerdicts,
 		"cover_checks":             map[string]int{"run": covers, "satisfiable_or_unknown": coversOK},
 		"inlined":                  sortedKeys(inlined),
 		"engine_notes":             sortedKeys(notes),
